@@ -59,7 +59,7 @@ type authSpec struct {
 
 type authHarness struct{}
 
-var authCodes = []string{"ABCD-1234", "ABCD-1235", "", "ABCD", "abcd-1234", "ZZZZ-9999"}
+var authCodes = []string{"ABCD-1234", "ABCD-1235", "", "ABCD", "abcd-1234", "ZZZZ-9999", "ABCD-1234\x00"}
 
 func (authHarness) Gen(r *verifsim.SplitMix, tier string, idx int) any {
 	sp := authSpec{Seed: r.Next(), SegMax: []int{1, 7, 50, 65536}[r.Intn(4)]}
@@ -413,7 +413,24 @@ func (authHarness) Run(spec any) (res verifsim.RunResult) {
 					got := o.err == nil
 					switch {
 					case got && !expect:
-						addV("auth-accepted-wrong-peer", side+":"+kind, fmt.Sprintf("%s accepted although its peer is not the other honest end of the same session holding the same code (codes %q/%q attacker %q)", side, sp.CodeS, sp.CodeR, sp.AttCode))
+						sig := side + ":" + kind
+						// two distinct codes one of which is the other plus trailing NUL bytes are the
+						// same HMAC key after zero padding: named apart so that the listed finding
+						// cannot hide another acceptance
+						peerCode := sp.CodeR
+						if side == "receiver" {
+							peerCode = sp.CodeS
+						}
+						mine := sp.CodeS
+						if side == "receiver" {
+							mine = sp.CodeR
+						}
+						for _, other := range []string{peerCode, sp.AttCode} {
+							if other != mine && strings.TrimRight(other, "\x00") == strings.TrimRight(mine, "\x00") {
+								sig = side + ":codes-equal-up-to-trailing-nul"
+							}
+						}
+						addV("auth-accepted-wrong-peer", sig, fmt.Sprintf("%s accepted although its peer is not the other honest end of the same session holding the same code (codes %q/%q attacker %q)", side, sp.CodeS, sp.CodeR, sp.AttCode))
 					case !got && expect:
 						addV("auth-rejected-right-peer", side+":"+kind, fmt.Sprintf("%s rejected a peer on the same session holding the same code: %v", side, o.err))
 					}
